@@ -1,5 +1,7 @@
 import NeoFS.Lemmas.NetmapRingHist
 import NeoFS.Lemmas.NetmapRingHalts
+import NeoFS.Generated.Consts
+import NeoFS.Generated.Footprint
 /-! # C08 — Netmap history: the last N maps are retrievable exactly, across count changes
 
 Model: `NeoFS/Model/NetmapRing.lean` (contracts/netmap/contract.go: `NewEpoch`, `UpdateSnapshotCount`,
@@ -287,5 +289,42 @@ example : (updateSnapshotCount init alpha 256).isSome = true ∧ (updateSnapshot
     (updateSnapshotCount (run init [(alpha, .updateSnapshotCount 1)]) alpha 256).isSome = true := by decide
 example : (updateSnapshotCount init alpha 0).isNone = true ∧ (updateSnapshotCount init alpha 10).isNone = true ∧
     (updateSnapshotCount init nobody 3).isNone = true ∧ (updateSnapshotCount init alpha 3).isSome = true := by decide
+
+/-! ## Frame of the model, regenerated: who can write the snapshot ring
+
+Checked by kernel evaluation over `NeoFS.Generated.Footprint.table` (grouped by contract: `contracts`), the MAY-WRITE footprint recomputed from the Go sources on
+every run (`extract footprint`; `Model/Footprint.lean`). -/
+section Footprint
+open NeoFS.Footprint NeoFS.Generated.Footprint
+
+def fpSnapshots : Fam := startingWith NeoFS.Generated.netmap_snapshotKeyPrefix_bytes
+def fpSnapshotCount : Fam := exactly NeoFS.Generated.netmap_snapshotCountKey_bytes
+def fpSnapshotCurrent : Fam := exactly NeoFS.Generated.netmap_snapshotCurrentIDKey_bytes
+def fpNetmap2 : Fam := startingWith NeoFS.Generated.netmap_node2NetmapPrefix_bytes
+
+/-- The ring slots, the ring size and the ring position are written by `newEpoch`, `updateSnapshotCount` and deployment only; the
+size only by `updateSnapshotCount` and deployment; slots are deleted only by `updateSnapshotCount`; the per-epoch structured maps
+are deleted only by these two. The ring size and position are never deleted. -/
+theorem snapshot_ring_written_only_by_tick_and_resize :
+    onlyBy contracts "netmap" "put" fpSnapshots ["newEpoch", "updateSnapshotCount", "_deploy"] = true ∧
+    onlyBy contracts "netmap" "delete" fpSnapshots ["updateSnapshotCount"] = true ∧
+    onlyBy contracts "netmap" "put" fpSnapshotCount ["updateSnapshotCount", "_deploy"] = true ∧
+    onlyBy contracts "netmap" "put" fpSnapshotCurrent ["newEpoch", "updateSnapshotCount", "_deploy"] = true ∧
+    onlyBy contracts "netmap" "delete" fpSnapshotCount [] = true ∧ onlyBy contracts "netmap" "delete" fpSnapshotCurrent [] = true ∧
+    onlyBy contracts "netmap" "delete" fpNetmap2 ["newEpoch", "updateSnapshotCount"] = true := by decide +kernel
+
+/-- The four key sets are pairwise disjoint although they share the text `snapshot`. -/
+theorem snapshot_key_families_disjoint :
+    fpSnapshots.overlaps fpSnapshotCount = false ∧ fpSnapshots.overlaps fpSnapshotCurrent = false ∧
+    fpSnapshotCount.overlaps fpSnapshotCurrent = false ∧
+    fpSnapshots.overlaps (exactly NeoFS.Generated.netmap_snapshotEpoch_bytes) = false ∧
+    fpSnapshots.overlaps (exactly NeoFS.Generated.netmap_snapshotBlockKey_bytes) = false := by decide +kernel
+
+example : does contracts "netmap" "newEpoch" "put" fpSnapshots = true ∧ does contracts "netmap" "updateSnapshotCount" "delete" fpSnapshots = true ∧
+    does contracts "netmap" "updateSnapshotCount" "put" fpSnapshotCount = true ∧ does contracts "netmap" "newEpoch" "put" fpSnapshotCurrent = true ∧
+    does contracts "netmap" "newEpoch" "delete" fpNetmap2 = true := by decide +kernel
+example : onlyBy (withRow contracts ⟨"netmap", "setConfig", "delete", "", "", NeoFS.Generated.netmap_snapshotKeyPrefix_bytes ++ [0], true⟩)
+    "netmap" "delete" fpSnapshots ["updateSnapshotCount"] = false := by decide +kernel
+end Footprint
 
 end NeoFS.Props.C08
